@@ -545,6 +545,28 @@ def _c14_concrete(pi, ni, i1) -> bool:
     return bool(r) == (OPS[i1] == "Relu" and same)
 
 
+# ---------------------------------------------------------------- class 19: an input the pattern declares ABSENT (explicit None), with and without other inputs allowed
+P19 = [RR.Pattern(lambda op, x, hi: op.Clip(x, None, hi)), RR.Pattern(lambda op, x, hi: op.Clip(x, None, hi, _allow_other_inputs=True))]
+
+
+def c19_none_input(i1: int, n_in: int, lo_none: bool, hi_none: bool, extra_none: bool, allow: bool) -> bool:
+    """Clip(x, None, hi [, _allow_other_inputs=True]) against a node with 1..4 inputs whose 2nd / 3rd / 4th input is a value or None:
+    the slot declared None must be empty on the node whether or not further inputs are allowed
+    vp-pre: 0 <= i1 < 6 and 1 <= n_in <= 4
+    vp-pre: not (n_in == 4 and extra_none and not allow)
+    """
+    ops1 = OPS + ["Clip"]
+    ins = ["a", None if lo_none else "lo", None if hi_none else "hi", None if extra_none else "b"][:n_in]
+    m, g, n, v = mk([("", ops1[i1], ins, [], 1)], ["a", "b", "lo", "hi"], ["v0"])
+    r = P19[1 if allow else 0].match(m, g, n[0])
+    expected = ops1[i1] == "Clip" and n_in >= 3 and lo_none and not hi_none and (n_in == 3 or allow)
+    if bool(r) != expected:
+        return False
+    if not r:
+        return True
+    return r.bindings["x"] is v["a"] and r.bindings["hi"] is v["hi"]
+
+
 def _ob(name, timeout=200, bounds="", tt=None, slice_=None):
     if slice_ is not None:
         var, n = slice_
@@ -578,5 +600,6 @@ OBLIGATIONS = [
     _ob("c17_commute_optional", 300, "host leaves symbolic: op-type indices of the inner and the root node, operand order of the root, presence of the optional third input and whether it is None"),
     _ob("c16_or_commit", 300, "host leaves symbolic: two op-type indices and which value (the inner node's output / its input / another input) is the root's second operand"),
     _ob("c15_or_shared_node", 300, "host leaves symbolic: four op-type indices, whether the root's second operand is the node under the first alternative or a sibling, and the sibling's input"),
+    _ob("c19_none_input", 200, "host leaves symbolic: op-type index, number of inputs 1..4, which of the 2nd/3rd/4th inputs are None, whether the pattern allows other inputs (explicit trailing None beyond a strict pattern excluded: recorded remark)"),
     _ob("c11_one_of_two_outputs", 300, "host leaves symbolic: op-type indices, which of the two outputs the pattern returns, whether the other output / the inner value is used outside or is a graph output"),
 ]
